@@ -110,7 +110,7 @@ func c06() []*Ob {
 									continue
 								}
 								if ia, ok := st.Addr.(*ssa.IndexAddr); ok {
-									if al, ok := ia.X.(*ssa.Alloc); ok && strings.Contains(al.Type().String(), "]"+ModPath+"/pkg/seqproxyapi/v1."+map[string]string{"funcMappings": "AggFunc", "orderMappings": "Order"}[it.global]) {
+									if al, ok := ia.X.(*ssa.Alloc); ok && strings.Contains(TypeStr(al.Type()), "]pkg/seqproxyapi/v1."+map[string]string{"funcMappings": "AggFunc", "orderMappings": "Order"}[it.global]) {
 										stores++
 									}
 								}
@@ -275,7 +275,7 @@ func c06() []*Ob {
 					}
 				}
 				isAggFunc := func(v ssa.Value) bool {
-					return strings.HasSuffix(v.Type().String(), "seq.AggFunc") || strings.HasSuffix(v.Type().String(), ".AggFunc")
+					return strings.HasSuffix(TypeStr(v.Type()), "seq.AggFunc") || strings.HasSuffix(TypeStr(v.Type()), ".AggFunc")
 				}
 				for _, name := range []string{"frac/processor.evalAgg", "(*seq.AggregatableSamples).getAggBucket"} {
 					fn := c.P.Func(name)
